@@ -429,7 +429,9 @@ Inductive op :=
 | Established (p : peer) | ConnClosed (p : peer) | SubIn (p : peer) | SubOut (p : peer)
 | OpenFail (p : peer) | DialFail (p : peer) | HsIn (p : peer) (okb : bool) | HsOut (p : peer) (okb : bool)
 | Validate (p : peer) (accept : bool) | Timer (p : peer) | CmdOpen (p : peer) | CmdClose (p : peer)
-| CmdForce (p : peer) | TaskDie (p : peer) (gated : bool) | Release (p : peer) | KillChan (p : peer)
+| CmdForce (p : peer) | TaskDie (p : peer) (gated : bool)
+| Release (p : peer) (older : bool)    (* held-back substream closes of p complete: all, or all but those of its newest task *)
+| KillChan (p : peer)
 | Gate (p : peer)
 | Notify (p : peer)                      (* the remote sends a notification on the open stream *)
 | NotifyDie (p : peer) (gated : bool)    (* ... and then closes the stream *)
@@ -443,7 +445,7 @@ Definition op_peer (o : op) : peer :=
   match o with
   | Established p | ConnClosed p | SubIn p | SubOut p | OpenFail p | DialFail p | HsIn p _
   | HsOut p _ | Validate p _ | Timer p | CmdOpen p | CmdClose p | CmdForce p | TaskDie p _
-  | Release p | KillChan p | Gate p | Notify p | NotifyDie p _ | GrabSink p | SendSync p _ | SendAsync p _
+  | Release p _ | KillChan p | Gate p | Notify p | NotifyDie p _ | GrabSink p | SendSync p _ | SendAsync p _
   | SinkSync p _ | SinkAsync p _ => p
   end.
 
@@ -469,6 +471,11 @@ Fixpoint finish_tasks (p : peer) (l : list task) : list task * list uev * N :=
         end
       else (t :: r', ev, n)
   end.
+
+(* the substream closes of the tasks of p are no longer held back; `older`: except those of its newest task *)
+Definition ungate (s : st) (p : peer) (older : bool) (l : list task) : list task :=
+  map (fun t => if (t_peer t =? p) && negb (older && match lastt s p with Some k => t_id t =? k | None => false end)
+                then mkTask (t_id t) (t_peer t) (t_closing t) false else t) l.
 
 Definition run_shutdowns (s : st) (p : peer) (n : N) : st :=
   if n =? 0 then s else on_shutdown s p.
@@ -548,8 +555,8 @@ Definition main_handler (c : cfg) (s : st) (o : op) : res :=
       | Some k => ok (set_tasks s (map_task k (fun t => mkTask (t_id t) (t_peer t) (t_closing t) true) (tasks s)))
       | None => ok s
       end
-  | Release p =>
-      let l := map (fun t => if t_peer t =? p then mkTask (t_id t) (t_peer t) (t_closing t) false else t) (tasks s) in
+  | Release p older =>
+      let l := ungate s p older (tasks s) in
       let '(l', ev, n) := finish_tasks p l in
       Some (run_shutdowns (set_tasks s l') p n, ev ++ (if n =? 0 then [] else shut_ev (set_tasks s l') p), [])
   | KillChan p => if conn s p then ok (set_dead s p true) else ok s
